@@ -809,6 +809,62 @@ fn struct_messages(ast: &DeriveInput, ts: proc_macro2::TokenStream) -> Result<St
     Ok(parts.join("|"))
 }
 
+
+// ---------------------------------------------------------------------------------------------------
+// EnumIs / EnumTryAs: every generated method as  name -> the one variant whose arm answers true / Some((all binders, in order))
+// ---------------------------------------------------------------------------------------------------
+fn inherent_methods(ts: proc_macro2::TokenStream) -> Result<Vec<syn::ImplItemFn>, String> {
+    let f: syn::File = syn::parse2(ts).map_err(|e| format!("tokens do not parse: {}", e))?;
+    let mut out = Vec::new();
+    for it in f.items { if let syn::Item::Impl(im) = it { if im.trait_.is_none() { for ii in im.items { if let syn::ImplItem::Fn(m) = ii { out.push(m); } } } } }
+    Ok(out)
+}
+fn two_arm_match<'a>(m: &'a syn::ImplItemFn) -> Result<(&'a syn::Arm, &'a syn::Arm), String> {
+    let mm = match m.block.stmts.as_slice() { [syn::Stmt::Expr(syn::Expr::Match(mm), None)] => mm, _ => return Err("body is not a single match".into()) };
+    let on_self = match &*mm.expr { syn::Expr::Path(p) => p.path.is_ident("self"), syn::Expr::Unary(u) => matches!(u.op, syn::UnOp::Deref(_)) && matches!(&*u.expr, syn::Expr::Path(p) if p.path.is_ident("self")), _ => false };
+    if !on_self { return Err("the match does not scrutinise self".into()); }
+    if mm.arms.len() != 2 || mm.arms.iter().any(|a| a.guard.is_some()) { return Err("not exactly two unguarded arms".into()); }
+    if !matches!(&mm.arms[1].pat, syn::Pat::Wild(_)) { return Err("second arm is not the wildcard".into()); }
+    Ok((&mm.arms[0], &mm.arms[1]))
+}
+fn struct_is(ast: &DeriveInput, ts: proc_macro2::TokenStream) -> Result<String, String> {
+    let mut out = Vec::new();
+    for m in inherent_methods(ts)? {
+        let (a, w) = two_arm_match(&m)?;
+        let lit_bool = |e: &syn::Expr, want: bool| matches!(e, syn::Expr::Lit(l) if matches!(&l.lit, syn::Lit::Bool(b) if b.value == want));
+        if !lit_bool(&a.body, true) || !lit_bool(&w.body, false) { return Err("arms are not `=> true` / `_ => false`".into()); }
+        let mut p = &a.pat;
+        while let syn::Pat::Reference(r) = p { p = &r.pat; }
+        let (vi, _) = pat_variant(ast, p)?;
+        out.push(format!("{}:v{}", m.sig.ident, vi));
+    }
+    Ok(format!("[{}]", out.join(";")))
+}
+fn struct_try_as(ast: &DeriveInput, ts: proc_macro2::TokenStream) -> Result<String, String> {
+    let mut out = Vec::new();
+    for m in inherent_methods(ts)? {
+        let (a, w) = two_arm_match(&m)?;
+        if !is_none_expr(&w.body) { return Err("wildcard arm is not None".into()); }
+        let mut p = &a.pat;
+        while let syn::Pat::Reference(r) = p { p = &r.pat; }
+        let (vi, binders) = pat_variant(ast, p)?;
+        let npat = match p { syn::Pat::TupleStruct(t) => t.elems.len(), _ => return Err("first arm is not a tuple-variant pattern".into()) };
+        if binders.len() != npat { return Err("a field is not bound".into()); }
+        let inner = strip_result(&a.body, "Some").ok_or("arm body is not Some(..)")?;
+        let returned: Vec<String> = match &inner {
+            syn::Expr::Tuple(t) => t.elems.iter().map(|e| match e { syn::Expr::Path(p) => p.path.get_ident().map(|i| i.to_string()).ok_or("returned element is not a binder".to_string()), _ => Err("returned element is not a binder".to_string()) }).collect::<Result<_, _>>()?,
+            syn::Expr::Paren(pe) => match &*pe.expr { syn::Expr::Path(p) => vec![p.path.get_ident().map(|i| i.to_string()).ok_or("returned element is not a binder")?], _ => return Err("returned element is not a binder".into()) },
+            syn::Expr::Path(p) => vec![p.path.get_ident().map(|i| i.to_string()).ok_or("returned element is not a binder")?],
+            _ => return Err("unrecognised returned value".into()),
+        };
+        let bound: Vec<String> = binders.iter().map(|(b, _)| b.clone()).collect();
+        if returned != bound { return Err("the returned tuple is not the bound fields in order".into()); }
+        let recv = match m.sig.inputs.first() { Some(syn::FnArg::Receiver(r)) => if r.reference.is_none() { "val" } else if r.mutability.is_some() { "mut" } else { "ref" }, _ => return Err("no receiver".into()) };
+        out.push(format!("{}:{}:v{}:{}", m.sig.ident, recv, vi, npat));
+    }
+    Ok(format!("[{}]", out.join(";")))
+}
+
 fn fnv(h: &mut u64, s: &str) { for b in s.bytes() { *h ^= b as u64; *h = h.wrapping_mul(0x100000001b3); } *h ^= 10; *h = h.wrapping_mul(0x100000001b3); }
 
 fn valid_ident(s: &str) -> bool {
@@ -900,6 +956,10 @@ fn main() {
                                 "EnumProperty" => match std::panic::catch_unwind(std::panic::AssertUnwindSafe(|| struct_props(&ast, ts))) {
                                     Ok(Ok(s)) => s, Ok(Err(m)) => format!("unparsed:{}", m), Err(_) => "unparsed:panic in the token reader".to_string() },
                                 "EnumMessage" => match std::panic::catch_unwind(std::panic::AssertUnwindSafe(|| struct_messages(&ast, ts))) {
+                                    Ok(Ok(s)) => s, Ok(Err(m)) => format!("unparsed:{}", m), Err(_) => "unparsed:panic in the token reader".to_string() },
+                                "EnumIs" => match std::panic::catch_unwind(std::panic::AssertUnwindSafe(|| struct_is(&ast, ts))) {
+                                    Ok(Ok(s)) => s, Ok(Err(m)) => format!("unparsed:{}", m), Err(_) => "unparsed:panic in the token reader".to_string() },
+                                "EnumTryAs" => match std::panic::catch_unwind(std::panic::AssertUnwindSafe(|| struct_try_as(&ast, ts))) {
                                     Ok(Ok(s)) => s, Ok(Err(m)) => format!("unparsed:{}", m), Err(_) => "unparsed:panic in the token reader".to_string() },
                                 _ => "unparsed:no structural reader for this derive".to_string(),
                             },
